@@ -543,7 +543,7 @@ def taint1(ctx):
             tnt = fl.forward(srcs, skip_mem=True)   # per-call value: not through self fields (flow-insensitive heap would conflate iterations)
             sinks = []
             for cs in b.calls:
-                if re.search(SINK_RE, cs.name) and any(fl.op_tainted(a, tnt) for a in cs.args[1:] if True):
+                if re.search(SINK_RE, cs.name) and any(fl.op_tainted(a, tnt) for a in (cs.args if re.search(r'::with_capacity$', cs.name) else cs.args[1:])):
                     sinks.append(cs)
                 elif re.search(INDEX_RE, cs.name) and len(cs.args) > 1 and fl.op_tainted(cs.args[1], tnt):
                     sinks.append(cs)
